@@ -49,6 +49,8 @@ func c19Alphabet(thorough bool) []c19Req {
 		{Kind: "Put", Key: "k1", Val: "v"}, {Kind: "Put", Key: "k2x", Val: ""}, {Kind: "Put", Key: "j9x", Val: "v"}, {Kind: "Delete", Key: "k1"},
 		{Kind: "Batch"}, {Kind: "BatchDup"},
 		{Kind: "BeginRW"}, {Kind: "BeginRO"}, {Kind: "TxPut", Key: "k1"}, {Kind: "TxDelete", Key: "k2x"}, {Kind: "Commit"}, {Kind: "Rollback"}, {Kind: "TxPutBig"},
+		// a second client's read-only transaction, open next to the first handle
+		{Kind: "BeginRO2"}, {Kind: "Finish2"},
 		// requests that must be rejected without side effects
 		{Kind: "PutEmptyKey"}, {Kind: "PutKey4097"}, {Kind: "Batch1001"}, {Kind: "BatchBadKey"}, {Kind: "TxGetBadKey"}, {Kind: "TxPutUnknown"}, {Kind: "TxPutBadKey"},
 		{Kind: "PutKey4096"},
@@ -67,6 +69,7 @@ type c19State struct {
 	txView map[string][]byte // model + own writes of the open transaction
 	dead   []string          // handles that were committed / rolled back
 	step   int
+	handle2 string // second open handle (read-only), "" none
 	doomed bool // the open transaction holds a value larger than a log record: its commit fails (as it does embedded)
 }
 
@@ -121,8 +124,38 @@ func (s *c19State) apply(q c19Req) string {
 				delete(s.txView, q.Key)
 			}
 		}
+	case "BeginRO2":
+		// two read-only transactions share the lock; next to a read-write one the request would wait (excluded)
+		if s.handle2 != "" || (s.handle != "" && !s.ro) {
+			return ""
+		}
+		resp, err := s.srv.BeginTransaction(ctx, &pb.BeginTransactionRequest{ReadOnly: true})
+		if err != nil || resp.TransactionId == "" || resp.TransactionId == s.handle {
+			return fmt.Sprintf("valid-request-rejected\n%s failed: %v %v", q, resp, err)
+		}
+		s.handle2 = resp.TransactionId
+	case "Finish2":
+		if s.handle2 == "" {
+			return ""
+		}
+		var err error
+		var ok bool
+		if s.step%2 == 0 {
+			var resp *pb.CommitTransactionResponse
+			resp, err = s.srv.CommitTransaction(ctx, &pb.CommitTransactionRequest{TransactionId: s.handle2})
+			ok = resp != nil && resp.Success
+		} else {
+			var resp *pb.RollbackTransactionResponse
+			resp, err = s.srv.RollbackTransaction(ctx, &pb.RollbackTransactionRequest{TransactionId: s.handle2})
+			ok = resp != nil && resp.Success
+		}
+		if err != nil || !ok {
+			return fmt.Sprintf("valid-request-rejected\nfinishing the second read-only handle failed: %v", err)
+		}
+		s.dead = append(s.dead, s.handle2)
+		s.handle2 = ""
 	case "Batch", "BatchDup", "Batch1000":
-		if s.handle != "" {
+		if s.handle != "" || s.handle2 != "" {
 			return "" // BatchWrite opens a transaction of its own: excluded while the client holds one
 		}
 		var ops []*pb.Operation
@@ -152,7 +185,7 @@ func (s *c19State) apply(q c19Req) string {
 			}
 		}
 	case "BeginRW", "BeginRO":
-		if s.handle != "" {
+		if s.handle != "" || (s.handle2 != "" && q.Kind == "BeginRW") {
 			return "" // a second transaction while holding one is excluded
 		}
 		resp, err := s.srv.BeginTransaction(ctx, &pb.BeginTransactionRequest{ReadOnly: q.Kind == "BeginRO"})
@@ -270,7 +303,7 @@ func (s *c19State) apply(q c19Req) string {
 		_, err := s.srv.Put(ctx, &pb.PutRequest{Key: []byte("big2"), Value: bytes.Repeat([]byte("B"), 10*1024*1024+1)})
 		return mustReject("Put with a 10 MiB+1 value", err, nil)
 	case "Batch1001":
-		if s.handle != "" {
+		if s.handle != "" || s.handle2 != "" {
 			return ""
 		}
 		var ops []*pb.Operation
@@ -280,7 +313,7 @@ func (s *c19State) apply(q c19Req) string {
 		_, err := s.srv.BatchWrite(ctx, &pb.BatchWriteRequest{Operations: ops})
 		return mustReject("BatchWrite with 1001 operations", err, nil)
 	case "BatchBadKey":
-		if s.handle != "" {
+		if s.handle != "" || s.handle2 != "" {
 			return ""
 		}
 		_, err := s.srv.BatchWrite(ctx, &pb.BatchWriteRequest{Operations: []*pb.Operation{{Type: pb.Operation_PUT, Key: []byte("k1"), Value: []byte("partial")}, {Type: pb.Operation_PUT, Key: nil, Value: []byte("x")}}})
@@ -354,6 +387,33 @@ func (s *c19State) reads() string {
 			if tr.Found != ok || (ok && !bytes.Equal(tr.Value, w)) {
 				return fmt.Sprintf("txget-differs\nTxGet(%s) -> found=%v %q; transaction view: found=%v %q", clipS(k, 12), tr.Found, clip(tr.Value), ok, clip(w))
 			}
+		}
+	}
+	if s.handle2 != "" {
+		// the second handle reads the committed data, whatever the first handle holds
+		for _, k := range c19Keys {
+			tr, err := s.srv.TxGet(ctx, &pb.TxGetRequest{TransactionId: s.handle2, Key: []byte(k)})
+			if err != nil {
+				return fmt.Sprintf("txget-failed\nTxGet(%s) on the second handle: %v", k, err)
+			}
+			w, ok := s.r.Model[k]
+			if tr.Found != ok || (ok && !bytes.Equal(tr.Value, w)) {
+				return fmt.Sprintf("txget-differs\nTxGet(%s) on the second (read-only) handle -> found=%v %q; committed data: found=%v %q", k, tr.Found, clip(tr.Value), ok, clip(w))
+			}
+		}
+		st := &fakeStream[pb.TxScanResponse]{}
+		if err := s.srv.TxScan(&pb.TxScanRequest{TransactionId: s.handle2}, st); err != nil {
+			return fmt.Sprintf("txscan-failed\nTxScan on the second handle: %v", err)
+		}
+		var got []kv
+		for _, m := range st.out {
+			got = append(got, kv{string(m.Key), string(m.Value)})
+		}
+		if d := cmpKV(got, c19ScanWant(s.r.Model, "", "", "", "", 0)); d != "" {
+			return fmt.Sprintf("txscan-differs\nTxScan on the second (read-only) handle: %s", d)
+		}
+		if _, err := s.srv.TxPut(ctx, &pb.TxPutRequest{TransactionId: s.handle2, Key: []byte("k1"), Value: []byte("x")}); err == nil {
+			return "write-in-read-only-transaction-accepted\nTxPut succeeded on the second (read-only) handle"
 		}
 	}
 	// the embedded API on the same engine sees the same data
@@ -437,7 +497,7 @@ func (s *c19State) reads() string {
 }
 
 func (s *c19State) key() string {
-	return s.r.StateKey() + fmt.Sprintf("|h=%v ro=%v doomed=%v dead=%d view=%s", s.handle != "", s.ro, s.doomed, len(s.dead), canonValues(strModel(s.txView)))
+	return s.r.StateKey() + fmt.Sprintf("|h=%v h2=%v ro=%v doomed=%v dead=%d view=%s", s.handle != "", s.handle2 != "", s.ro, s.doomed, len(s.dead), canonValues(strModel(s.txView)))
 }
 
 func c19Run(dir string, prog []c19Req, res *fw.Result) (problem, key string, out vsched.Outcome, detail string) {
@@ -463,6 +523,9 @@ func c19Run(dir string, prog []c19Req, res *fw.Result) (problem, key string, out
 		// leave the database free for Close
 		if s.handle != "" {
 			s.srv.RollbackTransaction(context.Background(), &pb.RollbackTransactionRequest{TransactionId: s.handle})
+		}
+		if s.handle2 != "" {
+			s.srv.RollbackTransaction(context.Background(), &pb.RollbackTransactionRequest{TransactionId: s.handle2})
 		}
 	})
 	os.RemoveAll(dir)
@@ -542,7 +605,7 @@ func init() {
 	fw.Register(&fw.Check{
 		ID:    "C19",
 		Level: "model_checking",
-		Rule: "explicit-state search over request sequences (depth 4, thorough 5) against the real KevoServiceServer handlers (in-memory stream objects) on a real engine: alphabet of 21 (24) requests {TxPut of a 40000-byte value (accepted; the commit then fails as it does embedded, and the handle must be finished), Put (incl. empty value, 4096-byte key, 10 MiB value), Delete, BatchWrite (3 ops incl. empty value; repeated key; 1000 ops), Begin rw/ro, TxPut, TxDelete, Commit, Rollback (also on finished/unknown handles), and requests that must be rejected: empty key, 4097-byte key, 10 MiB+1 value, 1001-operation batch, batch with a bad key in its second operation, TxGet/TxPut with bad keys, TxPut on an unknown handle}; after every sequence the whole read suite runs: Get/TxGet of 7 keys, all 32 combinations of {prefix, suffix, start, end, limit} for Scan or TxScan, 9 prefix/suffix pairs that overlap on a key / equal a whole key / exceed every key, limit 2, GetNodeInfo, use of finished handles, and the embedded reads on the same engine. Oracle: map model with the documented rule that prefix/suffix make start/end ignored; a rejected request changes nothing (state, open transaction). States de-duplicated by engine state + open handle + transaction view. Non-trivial = sequences with >=2 requests",
+		Rule: "explicit-state search over request sequences (depth 4, thorough 5) against the real KevoServiceServer handlers (in-memory stream objects) on a real engine: alphabet of 23 (26) requests {a second client's read-only transaction opened and finished next to the first handle (its reads show the committed data, finishing it leaves the first handle usable), TxPut of a 40000-byte value (accepted; the commit then fails as it does embedded, and the handle must be finished), Put (incl. empty value, 4096-byte key, 10 MiB value), Delete, BatchWrite (3 ops incl. empty value; repeated key; 1000 ops), Begin rw/ro, TxPut, TxDelete, Commit, Rollback (also on finished/unknown handles), and requests that must be rejected: empty key, 4097-byte key, 10 MiB+1 value, 1001-operation batch, batch with a bad key in its second operation, TxGet/TxPut with bad keys, TxPut on an unknown handle}; after every sequence the whole read suite runs: Get/TxGet of 7 keys, all 32 combinations of {prefix, suffix, start, end, limit} for Scan or TxScan, 9 prefix/suffix pairs that overlap on a key / equal a whole key / exceed every key, limit 2, GetNodeInfo, use of finished handles, and the embedded reads on the same engine. Oracle: map model with the documented rule that prefix/suffix make start/end ignored; a rejected request changes nothing (state, open transaction). States de-duplicated by engine state + open handle + transaction view. Non-trivial = sequences with >=2 requests",
 		Assumptions: []string{"handlers are called directly with in-memory stream objects (protobuf marshalling is not exercised; empty bytes fields are passed as nil, which is what unmarshalling yields)", "Compact and GetStats are administrative and outside the statement's list", "a client does not open a second transaction (Scan, BatchWrite) while holding a handle"},
 		Units: func(tier string) []string {
 			var us []string
